@@ -408,11 +408,12 @@ func (bs *BinarySpray) ReportFailure(bp BundleDescriptor, sender cla.Convergence
 		}).Warn("No metadata")
 		return
 	}
-	binarySprayBlock.SetCopies(metadata.remainingCopies + binarySprayBlock.RemainingCopies())
-
+	// Take back the copies which were announced to this peer, if it was chosen by SenderForBundle.
 	for i := 0; i < len(metadata.sent); i++ {
 		if metadata.sent[i] == sender.GetPeerEndpointID() {
 			metadata.sent = append(metadata.sent[:i], metadata.sent[i+1:]...)
+			metadata.remainingCopies = metadata.remainingCopies + binarySprayBlock.RemainingCopies()
+			binarySprayBlock.SetCopies(metadata.remainingCopies)
 			break
 		}
 	}
